@@ -230,7 +230,7 @@ theorem convertBase_contract (W B NB : Nat) (hB : 2 ≤ B) (hNB : 2 ≤ NB) (m :
   by_cases hsame : NB = B
   · simp only [hsame, if_true, ConvResult.ok.injEq] at h
     subst hsame; subst h
-    exact contract_exact NB m p _
+    exact round_new_contract NB hNB m p hp r.signif r.exp
   · simp only [hsame, if_false] at h
     by_cases hup : (if NB > B then ilogExact NB B else 0) > 1
     · simp only [hup, if_true, ConvResult.ok.injEq] at h
